@@ -903,4 +903,147 @@ def validCell (env : Env) : Expr → List Nat → Bool
   | .un _ e, i => validCell env e i
   | .bin _ l r, i => validCell env l i && validCell env r i
 
+/-! ## Scalar-level specification of elementwise trees
+
+For trees built from unary operations, `+ - * / **` and ufunc calls (no `dot`, `cross`, `<<`,
+`angle`) the result can be read entry by entry: entry `idx = i ++ [c]` of the result array is
+the same tree evaluated on **numbers** — every leaf read at the NumPy-broadcast position of
+`idx` in its own shape (`bproj`: trailing axes, axes of length 1 pinned to 0). -/
+
+/-- elementwise binary operations -/
+def isElem : BinOp → Bool
+  | .dot | .cross | .shl | .angle => false
+  | _ => true
+
+def Expr.elementwise : Expr → Bool
+  | .leaf _ => true
+  | .opd _ => true
+  | .un _ e => e.elementwise
+  | .bin b l r => isElem b && l.elementwise && r.elementwise
+
+/-- **the tree of scalars**: the expression evaluated on single numbers at result index `idx` -/
+def scalarAt (env : Env) : Expr → List Nat → GQ
+  | .leaf k, idx =>
+    match env.fields[k]? with
+    | some f => f.data.get (bproj f.data.shape idx)
+    | none => GQ.zero
+  | .opd (.num z _ _), _ => z
+  | .opd (.arr a _ _), idx => a.get (bproj a.shape idx)
+  | .un u e, idx => unFn env u (scalarAt env e idx)
+  | .bin b l r, idx => binFn b (scalarAt env l idx) (scalarAt env r idx)
+
+/-! ## Other forms of the ufunc protocol: `out=`, `reduce`, `accumulate`, `outer`
+
+`__array_ufunc__` receives the method name; everything except `"at"` goes through the same
+wrapping code.  `out=` fields are replaced by their arrays, NumPy writes into them, and the
+array that comes back is wrapped like any other result. -/
+
+namespace Kind
+/-- `np.can_cast(from, to, casting="same_kind")` on dtype kinds -/
+def castable : Kind → Kind → Bool
+  | .int, _ => true
+  | .float, .int => false
+  | .float, _ => true
+  | .complex, .complex => true
+  | .complex, _ => false
+end Kind
+
+/-- `function(a, b, out=out_array)` on the arrays: NumPy refuses (nothing is written) when the
+inputs do not broadcast, do not broadcast to the output's shape, or the loop's result type
+cannot be cast to the output's; otherwise every entry of the output is overwritten -/
+def outWrite (fn : GQ → GQ → GQ) (rk : Kind) (a b : NDA GQ) (out : CF) : M CF :=
+  match bshape a.shape b.shape with
+  | none => .error .value
+  | some s =>
+    if bshape s out.data.shape ≠ some out.data.shape then .error .value
+    else if rk.castable out.kind = false then .error .type
+    else .ok { out with data := ⟨out.data.shape, fun idx => fn (a.get (bproj a.shape idx)) (b.get (bproj b.shape idx))⟩ }
+
+/-- what a call with `out=` leaves behind: the value returned / the error raised, and the state
+of the `out` field afterwards -/
+structure OutRes where
+  res : M CF
+  out : CF
+
+/-- `ufunc(l, r, out=out)` for a binary ufunc with elementwise function `fn` whose loop for
+input kinds `ka`, `kb` produces kind `rk ka kb`.  Order of events as in `__array_ufunc__`:
+input types, meshes of the *inputs* (the mesh of `out` is not looked at), validity of the
+inputs, the NumPy call (writes `out`), shape check of the returned array against
+`self.mesh.n`, constructor with `self`'s labels and mapping — the last two can still refuse
+after `out` was written. -/
+def ufunc2out (fn : GQ → GQ → GQ) (pw : Bool) (rk : Kind → Kind → Kind) (l r : Val) (out : CF) : OutRes :=
+  match ufuncInput l with
+  | .error e => ⟨.error e, out⟩
+  | .ok (a, ka) =>
+    match ufuncInput r with
+    | .error e => ⟨.error e, out⟩
+    | .ok (b, kb) =>
+      match (match firstFld l r with
+             | none => (.ok () : M Unit)
+             | some self =>
+               match ufuncMeshOk self l with
+               | .error e => .error e
+               | .ok _ => ufuncMeshOk self r) with
+      | .error e => ⟨.error e, out⟩
+      | .ok _ =>
+        if negIntPow pw ka kb b then ⟨.error .value, out⟩
+        else
+          match outWrite fn (rk ka kb) a b out with
+          | .error e => ⟨.error e, out⟩
+          | .ok out' =>
+            ⟨(match firstFld l r with
+              | none => .error .notImpl      -- `valid` is the scalar `True`: the constructor refuses it
+              | some self => ufuncWrap self out'.data out.kind (ufuncValid self l r)), out'⟩
+
+/-- fold of `fn` over the entries `0 … len-1` of axis `ax` through `base` -/
+def foldAxis (fn : GQ → GQ → GQ) (a : NDA GQ) (ax : Nat) (base : List Nat) (len : Nat) : GQ :=
+  (List.range (len - 1)).foldl (fun acc j => fn acc (a.get (setAt base ax (j + 1)))) (a.get (setAt base ax 0))
+
+/-- `ufunc.reduce(a, axis=ax, keepdims=keep)` (all axes have length ≥ 1 here) -/
+def npReduce (fn : GQ → GQ → GQ) (a : NDA GQ) (ax : Nat) (keep : Bool) : NDA GQ :=
+  ⟨if keep then setAt a.shape ax 1 else removeAt a.shape ax,
+   fun idx => foldAxis fn a ax (if keep then idx else idx.take ax ++ 0 :: idx.drop ax) (a.shape.getD ax 0)⟩
+
+/-- `ufunc.reduce(a, axis=None)`: a 0-d result -/
+def npReduceAll (fn : GQ → GQ → GQ) (a : NDA GQ) : NDA GQ :=
+  ⟨[], fun _ => match a.toList with
+    | [] => GQ.zero
+    | x :: xs => xs.foldl fn x⟩
+
+/-- `np.<ufunc>.reduce(f, axis=…, keepdims=…)`; `ax = none` is `axis=None` -/
+def ufuncReduce (fn : GQ → GQ → GQ) (self : CF) (ax : Option Nat) (keep : Bool) : M CF :=
+  match ufuncMeshOk self (.fld self) with
+  | .error e => .error e
+  | .ok _ =>
+    match ax with
+    | none => ufuncWrap self (npReduceAll fn self.data) self.kind self.valid
+    | some k =>
+      if self.data.shape.length ≤ k then .error .value
+      else ufuncWrap self (npReduce fn self.data k keep) self.kind self.valid
+
+/-- `ufunc.accumulate(a, axis=ax)` -/
+def npAccumulate (fn : GQ → GQ → GQ) (a : NDA GQ) (ax : Nat) : NDA GQ :=
+  ⟨a.shape, fun idx => foldAxis fn a ax idx (idx.getD ax 0 + 1)⟩
+
+/-- `np.<ufunc>.accumulate(f, axis=ax)`: a field of the same shape, running along a mesh axis
+or along the components -/
+def ufuncAccumulate (fn : GQ → GQ → GQ) (self : CF) (ax : Nat) : M CF :=
+  match ufuncMeshOk self (.fld self) with
+  | .error e => .error e
+  | .ok _ =>
+    if self.data.shape.length ≤ ax then .error .value
+    else ufuncWrap self (npAccumulate fn self.data ax) self.kind self.valid
+
+/-- `np.<ufunc>.outer(f, g)`: result of shape `f.array.shape + g.array.shape` -/
+def ufuncOuter (fn : GQ → GQ → GQ) (f o : CF) : M CF :=
+  match ufuncMeshOk f (.fld f) with
+  | .error e => .error e
+  | .ok _ =>
+    match ufuncMeshOk f (.fld o) with
+    | .error e => .error e
+    | .ok _ =>
+      ufuncWrap f ⟨f.data.shape ++ o.data.shape,
+          fun idx => fn (f.data.get (idx.take f.data.shape.length)) (o.data.get (idx.drop f.data.shape.length))⟩
+        (f.kind.join o.kind) (NDA.zipWith (fun x y => x && y) f.valid o.valid)
+
 end DFV.C03
